@@ -11,6 +11,7 @@ from geometer import Point, PointCollection, Polygon, PolygonCollection, Rectang
 
 from .. import common as C
 from .. import exact as X
+from .. import zoo as Z
 from ..runner import Batch, Checker, Fail, HarnessError, Law, Skip, call, exc_fail, mismatch
 
 RULE = (
@@ -37,7 +38,8 @@ def seg_case(draw, tier="quick"):
     a = [draw(C.ints(5)) for _ in range(d)]
     b = [draw(C.ints(5)) for _ in range(d)]
     return {"d": d, "a": a, "b": b, "inf": draw(st.sampled_from([None, None, None, "b", "a"])), "sa": draw(C.scale()), "sb": draw(C.scale()),
-            "off": [draw(C.ints(3)) for _ in range(d)], "coll": draw(st.booleans())}
+            "off": [draw(C.ints(3)) for _ in range(d)], "coll": draw(st.booleans()),
+            "derive": draw(st.sampled_from(Z.DERIVATIONS)), "move": [draw(st.integers(-4, 4)) for _ in range(3)]}
 
 
 def run_seg(c):
@@ -53,7 +55,11 @@ def run_seg(c):
         sa, sb = abs(sa), abs(sb)
     ha = np.append(a, 0.0 if c["inf"] == "a" else 1.0)
     hb = np.append(b, 0.0 if c["inf"] == "b" else 1.0)
-    S = Segment(Point(ha * sa), Point(hb * sb))
+    how = c.get("derive")
+    S, f = call(f"segment{d}:construct" + (f":{how}" if how else ""), Z.derive_moved, lambda rows: Segment(Point(rows[0]), Point(rows[1])),
+                np.array([ha * sa, hb * sb]), how, c.get("move", [1, 2, 3]), lambda rows0: Point(rows0[0]))
+    if f:
+        return Batch(1, 0, [(f, c)], [])
     # query points
     qs, truth, cls = [], [], []
     if c["inf"] is None:
@@ -83,7 +89,7 @@ def run_seg(c):
     qs = np.array(qs)
     truth = np.array(truth)
     fails = []
-    site0 = f"segment{d}:{'ray' if c['inf'] else 'finite'}"
+    site0 = f"segment{d}:{'ray' if c['inf'] else 'finite'}" + (f":derived({how})" if how else "")
     if c["coll"]:
         r, f = call(site0 + ":collection", S.contains, PointCollection(qs))
         if f:
@@ -105,6 +111,8 @@ def run_seg(c):
     labels = {}
     for x in set(cls):
         labels[x] = cls.count(x)
+    if how:
+        labels["derived-from-a-queried-object"] = 1
     return Batch(len(qs), nt, fails, [], labels)
 
 
@@ -117,7 +125,8 @@ def poly_case(draw, tier="quick"):
     kind = draw(st.sampled_from(["polygon", "polygon", "triangle", "rectangle", "collection"]))
     return {"kind": kind, "idx": idx, "radii": radii, "off": [draw(C.ints(4)), draw(C.ints(4))], "embed": draw(st.sampled_from([None, None, "3d"])),
             "frame": [draw(C.ints(3)) for _ in range(9)], "rot": draw(st.integers(0, 6)), "rev": draw(st.booleans()), "api": draw(st.sampled_from(["single", "collection"])),
-            "scales": [draw(C.scale()) for _ in range(7)], "scaled": draw(st.sampled_from([False, False, True]))}
+            "scales": [draw(C.scale()) for _ in range(7)], "scaled": draw(st.sampled_from([False, False, True])),
+            "derive": draw(st.sampled_from(Z.DERIVATIONS)), "move": [draw(st.integers(-4, 4)) for _ in range(3)]}
 
 
 def polygon2(c):
@@ -197,15 +206,18 @@ def run_poly(c):
     kind = c["kind"]
     dim = 2 if emb is None else 3
     site0 = f"{kind}{dim}" + (":scaled-vertices" if c.get("scaled") else "")
+    how = c.get("derive")
+    if how:
+        site0 += f":derived({how})"
+    mv = c.get("move", [1, 2, 3])
+    wp = lambda rows0: Point(rows0[..., 0, :] if rows0.ndim == 2 else rows0[0, 0, :])  # noqa: E731
+    builders = {"triangle": lambda rows: Triangle(*[Point(v) for v in rows]), "rectangle": lambda rows: Rectangle(*[Point(v) for v in rows]),
+                "polygon": lambda rows: Polygon(*[Point(v) for v in rows])}
     try:
-        if kind == "triangle":
-            poly = Triangle(*[Point(v) for v in V])
-        elif kind == "rectangle":
-            poly = Rectangle(*[Point(v) for v in V])
-        elif kind == "collection":
+        if kind == "collection":
             poly = None  # built below: one copy of the polygon per query point (collections work element by element)
         else:
-            poly = Polygon(*[Point(v) for v in V])
+            poly = Z.derive_moved(builders[kind], V, how, mv, wp)
     except Exception as e:  # noqa: BLE001
         return Batch(1, 0, [(exc_fail(e, site0 + ":construct"), c)], [])
     fails = []
@@ -230,7 +242,7 @@ def run_poly(c):
     if c["api"] == "collection" or kind == "collection":
         if kind == "collection":
             try:
-                poly = PolygonCollection(np.stack([V] * len(Qall)))
+                poly = Z.derive_moved(lambda rows: PolygonCollection(np.stack([rows] * len(Qall))), V, how, mv, wp)
             except Exception as e:  # noqa: BLE001
                 return Batch(1, 0, [(exc_fail(e, site0 + ":construct"), c)], [])
             r, f = call(site0 + ":contains(collection)", poly.contains, PointCollection(Qall))
@@ -283,6 +295,8 @@ def run_poly(c):
     labels["convex" if all(X.orient(base[i], base[(i + 1) % n], base[(i + 2) % n]) > 0 for i in range(n)) or all(X.orient(base[i], base[(i + 1) % n], base[(i + 2) % n]) < 0 for i in range(n)) else "non-convex"] = 1
     if c["rev"]:
         labels["reversed"] = 1
+    if how:
+        labels["derived-from-a-queried-object"] = 1
     nt = sum(1 for x in call_cls if x in ("vertex", "edge", "edge-extension", "level-with-vertex"))
     return Batch(len(Qall), nt, fails, [], labels)
 
